@@ -1,6 +1,7 @@
 package main
 
 import (
+	"sync/atomic"
 	"bytes"
 	"context"
 	"crypto/sha1"
@@ -95,6 +96,8 @@ func runSolver(ctx context.Context, s solverSpec, file string, timeoutS int) (st
 
 var outDir = "/verif/out"
 
+var querySeq int64
+
 // Discharge decides one obligation, racing the installed solvers.
 func Discharge(o *Obligation, timeoutS int) {
 	if o.Status != "" {
@@ -111,7 +114,9 @@ func Discharge(o *Obligation, timeoutS int) {
 		timeoutS = 3
 	}
 	h := sha1.Sum([]byte(o.Name))
-	base := filepath.Join(outDir, "q", fmt.Sprintf("%x", h[:8]))
+	// the sequence number keeps the files of equally named obligations apart (a function may carry a main and a
+	// view contract, both with e.g. a cover/exit obligation, discharged by different workers at the same time)
+	base := filepath.Join(outDir, "q", fmt.Sprintf("%x-%d", h[:8], atomic.AddInt64(&querySeq, 1)))
 	os.MkdirAll(filepath.Dir(base), 0o755)
 	files := map[string]string{}
 	for _, s := range solvers {
@@ -273,7 +278,7 @@ func Confirm(o *Obligation, timeoutS int) string {
 		other = solvers[0]
 	}
 	h := sha1.Sum([]byte(o.Name))
-	f := filepath.Join(outDir, "q", fmt.Sprintf("%x.confirm.%s.smt2", h[:8], other.name))
+	f := filepath.Join(outDir, "q", fmt.Sprintf("%x-%d.confirm.%s.smt2", h[:8], atomic.AddInt64(&querySeq, 1), other.name))
 	os.MkdirAll(filepath.Dir(f), 0o755)
 	os.WriteFile(f, []byte(o.queryText(other.head)), 0o644)
 	defer os.Remove(f)
